@@ -8,4 +8,5 @@ rc=0
 for id in $(python3 -c "import json;print(' '.join(c['property_id'].lower() for c in json.load(open('MANIFEST.json'))['checks']))"); do
   go build -tags verif -o "bin/$id" "./cmd/$id" || rc=1
 done
+go build -race -tags verif -o bin/c20race ./cmd/c20race || rc=1
 exit $rc
